@@ -472,7 +472,8 @@ class digest(FieldType):
             if len(md5_bin) != 16:
                 raise TypeError("Incorrect hash length")
             self.__md5_bin = md5_bin
-            self.__md5 = val
+            # (a hash given as bytes is hex text like any other: keep it as text, a bytes value cannot be written as JSON and read back)
+            self.__md5 = val.decode() if isinstance(val, (bytes_type, bytearray)) else val
         except binascii.Error as e:
             raise TypeError("Invalid MD5 value {!r}, {}".format(val, e))
 
@@ -486,7 +487,7 @@ class digest(FieldType):
             if len(sha1_bin) != 20:
                 raise TypeError("Incorrect hash length")
             self.__sha1_bin = sha1_bin
-            self.__sha1 = val
+            self.__sha1 = val.decode() if isinstance(val, (bytes_type, bytearray)) else val
         except binascii.Error as e:
             raise TypeError("Invalid SHA-1 value {!r}, {}".format(val, e))
 
@@ -500,7 +501,7 @@ class digest(FieldType):
             if len(sha256_bin) != 32:
                 raise TypeError("Incorrect hash length")
             self.__sha256_bin = sha256_bin
-            self.__sha256 = val
+            self.__sha256 = val.decode() if isinstance(val, (bytes_type, bytearray)) else val
         except binascii.Error as e:
             raise TypeError("Invalid SHA-256 value {!r}, {}".format(val, e))
 
